@@ -13,6 +13,7 @@ def run(run, model):
     n = effects.immutable_values(run, model)
     run.do(effects.no_other_state, model)
     run.do(effects.ctxvar_only, model)
+    run.do(effects.no_memo, model, "C12.no-memo")
     # positive control for the zero-count rule: the recogniser must see the marker operations
     regs = marker.regions(model)
     ops = sum(1 for r in regs.values() for k, _, _ in r.event_states if k in ("ACQUIRE", "RESTORE", "REMOVE"))
